@@ -120,6 +120,7 @@ def leaf1 (f : String) (a : Val K V) : Option (Val K V) :=
 def leaf3 (f : String) (a b c : Val K V) : Option (Val K V) :=
   match f, a, b, c with
   | "topHashMatch", .w64 x, .w64 y, .int n => if 0 ≤ n then some (.bool (Gen.topHashMatch x y n.toNat)) else none
+  | "setByte", .w64 w, .w8 b, .int n => if 0 ≤ n then some (.w64 (Gen.setByte w b n.toNat)) else none
   | _, _, _, _ => none
 
 def constOf (c : String) : Option (Val K V) :=
@@ -182,6 +183,7 @@ def conv (t : String) (v : Val K V) : Option (Val K V) :=
   | "*bucketPadded", .ptrNil => some .ptrNil
   | "uintptr", .valPtr ci j i v => some (.valPtr ci j i v)
   | "uintptr", .ptrNil => some .ptrNil
+  | "rawPointer", .bucketRef ci j => some (.bucketRef ci j)  -- the conversion to Go's untyped pointer type
   | "int64", .int n => some (.int n)
   | "int", .int n => some (.int n)
   | _, _ => none
@@ -193,6 +195,12 @@ def selField (h : Heap K V) (v : Val K V) (f : String) : Option (Val K V) :=
   | .entry k _, "key" => some (.key k)
   | .entry _ v, "value" => some (.val v)
   | .bucketRef ci j, "entries" => some (.entriesOf ci j)
+  -- plain reads of `b.meta` / `b.next` (the write path, under the bucket lock): the same cells the atomic loads read
+  | .bucketRef ci j, "meta" => (bucketAt h ci j).map fun b => .w64 b.metaw
+  | .bucketRef ci j, "next" =>
+    (match h.chains[ci]? with
+     | some c => if j + 1 < c.length then some (.bucketRef ci (j + 1)) else if j < c.length then some .ptrNil else none
+     | none => none)
   | .mtablePtr, "seed" => some (.w64 h.seed)
   | .mtablePtr, "buckets" => some .mbuckets
   | .mbucketRef ci j, "keys" => some (.keysOf ci j)
@@ -283,6 +291,17 @@ def eval (h : Heap K V) (env : Env K V) : Expr → Option (Val K V)
     -- an element of `table.size` (to take the address of its field); the bucket arrays only under `&`: see `addr`
     match eval h env e, eval h env i with
     | some .stripes, some (.int n) => if 0 ≤ n ∧ n.toNat < h.stripes.length then some (.stripeRef n.toNat) else none
+    -- plain read of `b.entries[i]`
+    | some (.entriesOf ci j), some (.int n) =>
+      if 0 ≤ n then
+        (match bucketAt h ci j with
+         | some b =>
+           (match b.entries[n.toNat]? with
+            | some (some (k, v)) => some (.entry k v)
+            | some none => some .ptrNil
+            | none => none)
+         | none => none)
+      else none
     | _, _ => none
   | .addr (.recvField "table") => some (.loc .table)
   | .addr (.sel e f) => (eval h env e).bind (addrOf · f)
@@ -299,6 +318,7 @@ def eval (h : Heap K V) (env : Env K V) : Expr → Option (Val K V)
   | .atomicLoad kind a => (eval h env a).bind (atomicLoad h kind)
   | .recvField "size" => some .stripes
   | .recvField _ => none
+  | .newBucket => none  -- an effect: see `execW`
 
 def evalList (h : Heap K V) (env : Env K V) : List Expr → Option (List (Val K V))
   | [] => some []
@@ -407,6 +427,7 @@ def exec (fuel : Nat) (h : Heap K V) (res : List String) : Stmt → Env K V → 
     match env.lookup x with
     | some (.int n) => (setVar x (.int (n + 1)) env).map .normal
     | _ => none
+  | .store _ _, _ => none  -- a write: only `execW` knows it
   | .labeled l s, env => labelN l (fun env => exec fuel h res s env) fuel env
   | .goto l, env => some (.goto l env)
   | .block s, env => leave env (exec fuel h res s env)
@@ -424,6 +445,129 @@ def call (fuel : Nat) (h : Heap K V) (d : FuncDecl) (args : List (Val K V)) : Op
     let env : Env K V := d.params.zip args ++ d.results.map fun r => (r.1, zeroOf r.2)
     match exec fuel h (d.results.map (·.1)) d.body env with
     | some (.ret vs) => some vs
+    | _ => none
+
+/-! ### statements that write: the heap is part of the state
+
+`execW` is `exec` with the heap threaded through (expressions are still evaluated by `eval` on the current heap).  Besides
+the forms of `exec` that the printed write functions use it knows `x := new(bucketOfPadded)` (a zeroed bucket, not yet
+reachable: kept as a one-bucket chain of its own at the end of `chains`) and the three stores through a bucket pointer:
+`b.meta = w`, `b.entries[i] = p` (index outside the array is stuck), `b.next = p` (linking the fresh bucket behind the
+last bucket of a chain moves it there). -/
+
+abbrev W (K V : Type) := Heap K V × Env K V
+
+inductive OutW (K V : Type) where
+  | normal (w : W K V)
+  | brk (w : W K V)
+  | ret (h : Heap K V) (vs : List (Val K V))
+
+def setBucket (h : Heap K V) (ci j : Nat) (f : BucketOf K V → BucketOf K V) : Option (Heap K V) :=
+  match h.chains[ci]? with
+  | some c =>
+    (match c[j]? with
+     | some b => some { h with chains := h.chains.set ci (c.set j (f b)) }
+     | none => none)
+  | none => none
+
+/-- `b.next = newb` for the fresh bucket `newb` (the last, one-bucket chain) and the last bucket `b` of chain `ci` -/
+def linkFresh (h : Heap K V) (ci j cn : Nat) : Option (Heap K V) :=
+  match h.chains[ci]?, h.chains[cn]? with
+  | some c, some [nb] =>
+    if j + 1 = c.length ∧ cn + 1 = h.chains.length ∧ ci ≠ cn then
+      some { h with chains := (h.chains.set ci (c ++ [nb])).dropLast }
+    else none
+  | _, _ => none
+
+def storeTo (h : Heap K V) (env : Env K V) (lhs : Expr) (v : Val K V) : Option (Heap K V) :=
+  match lhs with
+  | .sel e "meta" =>
+    (match eval h env e, v with
+     | some (.bucketRef ci j), .w64 w => setBucket h ci j fun b => { b with metaw := w }
+     | _, _ => none)
+  | .sel e "next" =>
+    (match eval h env e, v with
+     | some (.bucketRef ci j), .bucketRef cn 0 => linkFresh h ci j cn
+     | _, _ => none)
+  | .index (.sel e "entries") i =>
+    (match eval h env e, eval h env i with
+     | some (.bucketRef ci j), some (.int n) =>
+       (match bucketAt h ci j with
+        | some b =>
+          if 0 ≤ n ∧ n.toNat < b.entries.length then
+            (match v with
+             | .entry k x => setBucket h ci j fun b => { b with entries := b.entries.set n.toNat (some (k, x)) }
+             | .ptrNil => setBucket h ci j fun b => { b with entries := b.entries.set n.toNat none }
+             | _ => none)
+          else none
+        | none => none)
+     | _, _ => none)
+  | _ => none
+
+def loopNW (body : W K V → Option (OutW K V)) : Nat → W K V → Option (OutW K V)
+  | 0, _ => none
+  | n + 1, w =>
+    match body w with
+    | some (.normal w') => loopNW body n w'
+    | some (.brk w') => some (.normal w')
+    | some (.ret h vs) => some (.ret h vs)
+    | none => none
+
+def leaveW (outer : Env K V) : Option (OutW K V) → Option (OutW K V)
+  | some (.normal (h, env)) => some (.normal (h, env.drop (env.length - outer.length)))
+  | some (.brk (h, env)) => some (.brk (h, env.drop (env.length - outer.length)))
+  | r => r
+
+def iter3W (c : W K V → Option (Val K V)) (body post : W K V → Option (OutW K V)) (w : W K V) : Option (OutW K V) :=
+  match c w with
+  | some (.bool true) =>
+    (match body w with
+     | some (.normal w') => post w'
+     | r => r)
+  | some (.bool false) => some (.brk w)
+  | _ => none
+
+/-- a zeroed bucket, as `new(bucketOfPadded)` returns it -/
+def zeroBucket : BucketOf K V := ⟨0#64, [none, none, none, none, none]⟩
+
+def execW (fuel : Nat) (res : List String) : Stmt → W K V → Option (OutW K V)
+  | .skip, w => some (.normal w)
+  | .seq a b, w =>
+    match execW fuel res a w with
+    | some (.normal w') => execW fuel res b w'
+    | r => r
+  | .define x .newBucket, (h, env) =>
+    some (.normal ({ h with chains := h.chains ++ [[zeroBucket]] }, (x, .bucketRef h.chains.length 0) :: env))
+  | .define x e, (h, env) => (eval h env e).map fun v => .normal (h, (x, v) :: env)
+  | .assign x e, (h, env) => (eval h env e).bind fun v => (setVar x v env).map fun env' => .normal (h, env')
+  | .store lhs rhs, (h, env) => (eval h env rhs).bind fun v => (storeTo h env lhs v).map fun h' => .normal (h', env)
+  | .ifThen c t f, (h, env) =>
+    match eval h env c with
+    | some (.bool true) => execW fuel res t (h, env)
+    | some (.bool false) => execW fuel res f (h, env)
+    | _ => none
+  | .ret es, (h, env) => (evalList h env es).map (.ret h)
+  | .retBare, (h, env) => (readAll env res).map (.ret h)
+  | .forever body, w => loopNW (fun w => execW fuel res body w) fuel w
+  | .for3 init c post body, w =>
+    leaveW w.2 (match execW fuel res init w with
+      | some (.normal w1) =>
+        loopNW (iter3W (fun w => eval w.1 w.2 c) (fun w => execW fuel res body w) (fun w => execW fuel res post w)) fuel w1
+      | r => r)
+  | .incr x, (h, env) =>
+    match env.lookup x with
+    | some (.int n) => (setVar x (.int (n + 1)) env).map fun env' => .normal (h, env')
+    | _ => none
+  | .block s, w => leaveW w.2 (execW fuel res s w)
+  | _, _ => none
+
+/-- a call of a printed function that writes: the new heap and the results -/
+def callW (fuel : Nat) (h : Heap K V) (d : FuncDecl) (args : List (Val K V)) : Option (Heap K V × List (Val K V)) :=
+  if d.params.length ≠ args.length then none
+  else
+    let env : Env K V := d.params.zip args ++ d.results.map fun r => (r.1, zeroOf r.2)
+    match execW fuel (d.results.map (·.1)) d.body (h, env) with
+    | some (.ret h' vs) => some (h', vs)
     | _ => none
 
 end Deep.T
